@@ -464,5 +464,42 @@ fn main() {
                 || call_ret!(fi, xo, w, mp, Vec<Option<f64>>, Option<f64>, Vec<Option<f64>>, Option<f64>));
         }
     }
+
+    // ------------------------------------------------------------------ audit block (notes/C03.md "Audit matrix")
+    // window = 0 (C03_window0_rejected: the assertion fails on a non-empty series, both bodies and the caller buffer;
+    // C03_empty_series on the empty one) and min_periods above the clamped window (C03_min_periods_above_window_all_null:
+    // NOT clamped in the cmp family -> all null; clamped to the window in the norm family)
+    {
+        let audit: Vec<Vec<f64>> = vec![vec![], vec![2.0], vec![1.0, f64::NAN, 1.0, 0.5], vec![0.25, 0.25, 3.0, f64::NAN, f64::NAN, 1.0]];
+        for xs in audit.iter() {
+            let len = xs.len();
+            let xs_coq = coq_list(xs, |x| coq_f64(*x));
+            let xo: Vec<Option<f64>> = xs.iter().map(|x| if x.is_nan() { None } else { Some(*x) }).collect();
+            let xo_coq = coq_list(&xo, |x| coq_opt(x, |v| coq_f64(*v)));
+            let dq: VecDeque<f64> = vh::wrapped_deque(xs);
+            let nt = if len == 0 { " nt=0" } else { "" };
+            let mut cfgs: Vec<(usize, Option<usize>)> = vec![(0, None), (0, Some(0)), (0, Some(1))];
+            for w in [1usize, 2, len.max(1), len + 2] { for extra in [1usize, 3] { cfgs.push((w, Some(w.min(len.max(1)) + extra))); cfgs.push((w, Some(w + extra))); } }
+            for (w, mp) in cfgs {
+                for fi in 0..FNS.len() {
+                    let cmp = if fi >= 8 { "float:1e-9,1e3" } else { "exact" };
+                    let tags = |ty: &str, be: &str| format!("fn={} ty={} be={} kind=single len={} wrel={} style=audit{}",
+                        FNS[fi], ty, be, len, if w == 0 { "zero" } else if w > len { "gt" } else if w == len { "eq" } else { "lt" }, nt);
+                    em.case(cmp, &tags("f64", "vec"), &format!("fn={} ty=f64 be=vec w={} mp={:?} xs={:?}", FNS[fi], w, mp, xs),
+                        || term(false, fi, "f", true, w, mp, &xs_coq),
+                        || call_ret!(fi, xs, w, mp, Vec<f64>, f64, Vec<f64>, f64));
+                    em.case(cmp, &tags("f64", "deque"), &format!("fn={} ty=f64 be=deque w={} mp={:?} xs={:?}", FNS[fi], w, mp, xs),
+                        || term(false, fi, "f", false, w, mp, &xs_coq),
+                        || call_ret!(fi, dq, w, mp, Vec<f64>, f64, Vec<f64>, f64));
+                    em.case(cmp, &tags("f64", "vec_to"), &format!("fn={} ty=f64 be=vec_to w={} mp={:?} xs={:?}", FNS[fi], w, mp, xs),
+                        || term(false, fi, "f", true, w, mp, &xs_coq),
+                        || call_to!(fi, xs, w, mp, len));
+                    em.case(cmp, &tags("optf64", "vec"), &format!("fn={} ty=optf64 be=vec w={} mp={:?} xs={:?}", FNS[fi], w, mp, xo),
+                        || term(false, fi, "o", true, w, mp, &xo_coq),
+                        || call_ret!(fi, xo, w, mp, Vec<Option<f64>>, Option<f64>, Vec<Option<f64>>, Option<f64>));
+                }
+            }
+        }
+    }
     em.finish();
 }
